@@ -1802,10 +1802,52 @@ impl PhysicalPlanner {
             }
 
             LogicalPlan::Values(node) => {
-                // Evaluate constant expressions and create a batch
+                // Evaluate the constant row expressions against a one-row,
+                // zero-column batch and assemble them into a single batch.
                 let schema = plan_schema_to_arrow(&node.schema);
-                // For now, return empty - proper implementation needs expression evaluation
-                let exec = MemoryTableExec::new("values", schema, vec![], None);
+                let width = schema.fields().len();
+                let unit = arrow::record_batch::RecordBatch::try_new_with_options(
+                    Arc::new(Schema::empty()),
+                    vec![],
+                    &arrow::record_batch::RecordBatchOptions::new().with_row_count(Some(1)),
+                )?;
+                let mut cells: Vec<Vec<arrow::array::ArrayRef>> = vec![Vec::new(); width];
+                for row in &node.values {
+                    if row.len() != width {
+                        return Err(QueryError::Plan(format!(
+                            "VALUES rows must all have {} columns, found a row with {}",
+                            width,
+                            row.len()
+                        )));
+                    }
+                    for (i, expr) in row.iter().enumerate() {
+                        let value = crate::physical::operators::evaluate_expr(&unit, expr)?;
+                        let target = schema.field(i).data_type();
+                        let value = if value.data_type() != target {
+                            arrow::compute::cast(&value, target)?
+                        } else {
+                            value
+                        };
+                        cells[i].push(value);
+                    }
+                }
+                let batches = if node.values.is_empty() {
+                    vec![]
+                } else {
+                    let columns = cells
+                        .iter()
+                        .map(|parts| {
+                            let refs: Vec<&dyn arrow::array::Array> =
+                                parts.iter().map(|a| a.as_ref()).collect();
+                            arrow::compute::concat(&refs)
+                        })
+                        .collect::<std::result::Result<Vec<_>, _>>()?;
+                    vec![arrow::record_batch::RecordBatch::try_new(
+                        schema.clone(),
+                        columns,
+                    )?]
+                };
+                let exec = MemoryTableExec::new("values", schema, batches, None);
                 Ok(Arc::new(exec))
             }
 
